@@ -7,6 +7,7 @@ import (
 	"os"
 
 	"verif/chk"
+	_ "verif/e3/c10"
 )
 
 func main() { chk.Main(os.Args[1:]) }
